@@ -33,7 +33,9 @@ func TestBackends(t *testing.T) {
 		rng := rand.New(rand.NewSource(seed))
 		reg := [][3]uint64{{1000, 1010, 1020}, {8, 14, 18}, {1, 1, 1}}[rng.Intn(3)]
 		spec := TreeSpec{Seed: seed, Allow: reg[0], Require: reg[1], Final: reg[2], Blocks: 15 + rng.Intn(25), Warmup: 3,
-			MaxLeaves: 3, BadBlocks: 3, OpsPerBlk: 3, ForkProb: 0.2, UniqueWindows: true}
+			MaxLeaves: 3, BadBlocks: 3, OpsPerBlk: 3, ForkProb: 0.2, UniqueWindows: reg[0] != 1000}
+		// v1-only histories put several contracts under one expiration height (the per-height lists the
+		// store edits with swap-remove / append); the expiration ORDER audit is C02's, not counted here
 		tr := spec.Build()
 		tj, nm := tr.Abstract()
 		var nodes []*RNode
@@ -60,7 +62,7 @@ func TestBackends(t *testing.T) {
 					db = chain.NewCacheDB(db)
 				}
 			}
-			node, err := OpenNode(tr.W, db, false)
+			node, err := OpenNode(tr.W, db, true)
 			if err != nil {
 				t.Fatal(err)
 			}
@@ -101,6 +103,9 @@ func TestBackends(t *testing.T) {
 				}
 				p := node.Project(tr, nm, tj.MaxH)
 				for _, a := range node.Audit(tr, nm, tj.MaxH, p) {
+					if a[0] == "audit:c02:expiry-order" {
+						continue
+					}
 					mismatch("backends:"+names[bi]+":"+a[0], a[1])
 				}
 				dump := DumpDB(node.DB)
@@ -127,6 +132,21 @@ func TestBackends(t *testing.T) {
 					}
 				}
 				res.Eval("")
+			}
+		}
+		// what survives if the process stopped now must be the image of the last completed commit on
+		// every backend (a committed value changed in place through a slice the backend handed out
+		// shows up here on MemDB, and as a fault on Bolt's read-only mapping)
+		for bi, node := range nodes {
+			if names[bi] == "mem" || names[bi] == "cache-mem" {
+				node.Backend = map[string]string{"mem": "mem", "cache-mem": "cache"}[names[bi]]
+				if names[bi] == "cache-mem" {
+					continue // the cache's inner MemDB is not reachable from here; covered by C03's driver
+				}
+				node.DB.durable = node.Raw
+				if _, diff := node.CrashImage(); diff != "" {
+					mismatch("backends:"+names[bi]+":uncommitted-visible", diff)
+				}
 			}
 		}
 		for _, c := range closers {
